@@ -168,6 +168,12 @@ pub fn run_case(idx: u64, case: &Case, tl: Option<(&tokio::runtime::Runtime, rac
         if timing == 2 {
             child.post_start.insert(0, Step::Park(gate.clone()));
         }
+        // thread engine: the child runs concurrently on its own thread; hold it at the top of post_start until the
+        // monitor has been registered (otherwise "monitor missed the exit" would be a harness race)
+        let mon_gate = Gate::new();
+        if is_tl {
+            child.post_start.insert(0, Step::Park(mon_gate.clone()));
+        }
         let child = Arc::new(child);
         let name = child.name.clone().unwrap();
         // timing 2 parks inside post_start: the spawn call itself returns after pre_start
@@ -195,6 +201,7 @@ pub fn run_case(idx: u64, case: &Case, tl: Option<(&tokio::runtime::Runtime, rac
             if case.monitor {
                 mon_ref.get_cell().monitor(child_ref.get_cell());
             }
+            mon_gate.release();
             let _ = child_ref.send_message(PMsg::Work(Work::new(&trace, 1, 1, first_msg_script)));
             let _ = child_ref.send_message(PMsg::Work(Work::new(&trace, 1, 2, vec![Step::Yield])));
             match timing {
